@@ -192,8 +192,8 @@ impl fmt::Display for HumanFloatCount {
         let num = format!("{:.*}", precision, self.0);
 
         let (int_part, frac_part) = match num.split_once('.') {
-            Some((int_str, fract_str)) => (int_str.to_string(), fract_str),
-            None => (self.0.trunc().to_string(), ""),
+            Some((int_str, fract_str)) => (int_str, fract_str),
+            None => (num.as_str(), ""),
         };
         let len = int_part.len();
         for (idx, c) in int_part.chars().enumerate() {
